@@ -1433,6 +1433,15 @@ def gen_deep():
     out.append((["program",
                  ["fn", g.ident("id"), ["params", [g.ident("a"), i32]], i32, ["body", ["ret", ["expr", ["name", g.ident("a")]]]]],
                  ["fn", g.ident("f"), ["params"], i32, ["body", ["ret", e]]]], {"stream": "deep", "calls": 60}))
+    # flat chains of 100 operators of ONE priority class (the fold nests them to the left, one level each)
+    for cls, ops in ((9, ["Multiply", "ShiftLeft", "ShiftRight"]), (5, ["Plus"])):
+        g = Gen(20 + cls)
+        chain = ["expr", ["ext", i32, 0]]
+        for k in range(100):
+            chain.append([ops[k % len(ops)], ["ext", i32, k + 1]])
+        out.append((["program", ["fn", g.ident("f"), ["params"], i32,
+                                 ["body", ["let", g.ident("c"), 0, ["noty"], chain], ["ret", ["expr", ["name", g.ident("c")]]]]]],
+                    {"stream": "deep", "flat_chain": 100, "class": cls}))
     # a long FLAT else-if chain (90 arms and a final else: siblings, not nesting), each arm declaring a value
     g = Gen(3)
     cmpc = lambda k: ["logic", ["lc", ["expr", ["name", g.ident("op")]], "Eq", ["expr", ["prim", ["pv", "i32", k]]]]]
